@@ -38,7 +38,7 @@ def get_violation_line(violation: Violation, context: BaseLintContext) -> str | 
     if not context.file_content:
         return None
 
-    lines = context.file_content.splitlines()
+    lines = context.file_content.split("\n")
     if violation.line <= 0 or violation.line > len(lines):
         return None
 
